@@ -19,13 +19,17 @@ Section Fs.
     | [] => default_id
     end.
 
-  (** [get_range]: x = y all; x < y regular; x > y wrap-around = [start,y) then [x,end] *)
-  Definition fs_get_range (ns : N) (T : tables) (x y : rid) : list entry :=
+  (** [get_range]: x = y all; x < y regular; x > y wrap-around = [start,y) then [x,end];
+      every scan clamped to the namespace ([clamp = false]: the pinned tree, which used the
+      peer's range ends as table bounds as they were — defect D14) *)
+  Definition fs_get_range_gen (clamp : bool) (ns : N) (T : tables) (x y : rid) : list entry :=
     match rid_cmp x y with
     | Eq => rec_range (rb_namespace ns) T
-    | Lt => rec_range (Incl x, Excl y) T
-    | Gt => rec_range (namespace_start ns, Excl y) T ++ rec_range (Incl x, namespace_end ns) T
+    | Lt => rec_range (if clamp then rb_clamped ns (Some x) (Some y) else (Incl x, Excl y)) T
+    | Gt => rec_range (if clamp then rb_clamped ns None (Some y) else (namespace_start ns, Excl y)) T
+            ++ rec_range (if clamp then rb_clamped ns (Some x) None else (Incl x, namespace_end ns)) T
     end.
+  Definition fs_get_range := fs_get_range_gen true.
 
   (** [get_exact] *)
   Definition fs_get_exact (T : tables) (ns au : N) (k : bytes) (include_empty : bool) : option entry :=
